@@ -14,6 +14,8 @@ Record write_obs := { wo_h : N; wo_c : preconf; wo_sends_ok_before : N }.
 Record obs := { o_rets : list (N * N);                 (* handler, return code *)
                 o_signed : list bytes;                 (* digests passed to SignHash of the node key *)
                 o_sends : list (bytes * bytes * bool); (* destination, calldata, result ok *)
+                o_send_seq : list N;                   (* per send: its rank among the successful ones in order of
+                                                          completion, 0 if it failed (used by C07's checker) *)
                 o_writes : list write_obs;             (* commitments written to bidders' streams *)
                 o_asked : list bytes;                  (* addresses the allowance store was asked about *)
                 o_pending : N }.                       (* entries left in bidsInProcess *)
@@ -23,13 +25,10 @@ Record obs := { o_rets : list (N * N);                 (* handler, return code *
    chain endpoint and the frame returned to the bidder are observable); 2: the harness failed to start *)
 Record case := { id : N; mode : N; contract : bytes; evs : list event; timed_at : option N; evs_after : list event; ob : obs }.
 
-Definition deadline_ms : N :=
-  match c01_deadline_ns with [ns] => Z.to_N (ns / 1000000) | _ => 0 end.
 Definition all_evs (c : case) : list event :=
   match timed_at c with
   | None => evs c ++ evs_after c
-  | Some t => if t <? deadline_ms then evs c ++ evs_after c ++ [DeadlineFire 1]
-              else evs c ++ [DeadlineFire 1] ++ evs_after c
+  | Some t => timed_history 1 t (evs c) (evs_after c)
   end.
 
 Definition wiring_of (c : case) : wiring := node_wiring (contract c).
@@ -85,7 +84,7 @@ Definition m_asked (c : case) : list bytes :=
                      else []) (arrivals (all_evs c)).
 Definition predict (c : case) : obs :=
   let s := model_state c in
-  {| o_rets := m_rets c s; o_signed := m_signed s; o_sends := m_sends s;
+  {| o_rets := m_rets c s; o_signed := m_signed s; o_sends := m_sends s; o_send_seq := [];
      o_writes := m_writes_from (chron s) 0; o_asked := m_asked c; o_pending := N.of_nat (length (pending (svc s))) |}.
 
 Definition obs_eqb (a b : obs) : bool :=
@@ -118,6 +117,13 @@ Fixpoint before_deadline (h : N) (l : list event) : list event :=
   | Abandon h' :: r => if h' =? h then [] else Abandon h' :: before_deadline h r
   | e :: r => e :: before_deadline h r
   end.
+(* the history after handler h's own Arrive: only a decision processed after the registration can name its entry *)
+Fixpoint after_arrive (h : N) (l : list event) : list event :=
+  match l with
+  | [] => []
+  | Arrive h' _ _ :: r => if h' =? h then r else after_arrive h r
+  | _ :: r => after_arrive h r
+  end.
 Definition accepted_in (l : list event) (d : bytes) : bool :=
   existsb (fun e => match e with Lookup _ d' st => bytes_eqb d d' && (st =? status_accepted)%Z | _ => false end) l.
 
@@ -132,8 +138,8 @@ Definition failing_gate (c : case) (h : N) (role : Z) (o : arrive_oracle) : opti
       | VOk _ =>
           if negb (o_allow o) then Some "allowance"%string
           else if negb (vbid rules_validators (to_engine b)) then Some "format"%string
-          else if negb (accepted_in (all_evs c) (b_dig b)) then Some "decision"%string
-          else if negb (accepted_in (before_deadline h (all_evs c)) (b_dig b)) then Some "deadline"%string
+          else if negb (accepted_in (after_arrive h (all_evs c)) (b_dig b)) then Some "decision"%string
+          else if negb (accepted_in (before_deadline h (after_arrive h (all_evs c))) (b_dig b)) then Some "deadline"%string
           else None
       end
   end.
@@ -151,6 +157,37 @@ Definition first_failure (c : case) : string :=
                            | Some k => [k] | None => [] end) (arrivals (all_evs c)) with
   | k :: _ => k
   | [] => "decision"%string
+  end.
+
+(* attribution by content: what each passing handler may sign and submit, from the answer the real signer
+   gave for its bid (the TakeDecision event of that handler) *)
+Definition kterm_of (c : case) (h : N) : option construct_res :=
+  match flat_map (fun e => match e with TakeDecision h' k => if h' =? h then [k] else [] | _ => [] end) (all_evs c) with
+  | k :: _ => Some k
+  | [] => None
+  end.
+Definition may_sign (c : case) : list bytes :=
+  flat_map (fun h => match kterm_of c h with
+                     | Some (KOk d _) | Some (KSignFail d) => [d]
+                     | _ => [] end) (passing c).
+Definition may_send (c : case) : list (bytes * bytes) :=
+  flat_map (fun h => match kterm_of c h, handler_bid c h with
+                     | Some (KOk d sg), Some b =>
+                         match parse_bigint (b_amt b) with
+                         | Some amt => [(contract c, calldata keccak256 amt {| c_bid := b; c_dig := d; c_sig := sg |})]
+                         | None => []
+                         end
+                     | _, _ => [] end) (passing c).
+(* every observed item is one of the allowed items, each allowed item used at most once *)
+Fixpoint remove_first {A} (eqb : A -> A -> bool) (x : A) (l : list A) : option (list A) :=
+  match l with
+  | [] => None
+  | y :: r => if eqb x y then Some r else option_map (cons y) (remove_first eqb x r)
+  end.
+Fixpoint covered {A} (eqb : A -> A -> bool) (obsd allowed : list A) : bool :=
+  match obsd with
+  | [] => true
+  | x :: r => match remove_first eqb x allowed with Some a' => covered eqb r a' | None => false end
   end.
 
 Definition violation (c : case) : option string :=
@@ -177,7 +214,10 @@ Definition violation (c : case) : option string :=
   | k :: _ => Some k
   | [] =>
       (* signatures / transactions beyond what the passing handlers may produce *)
-      if (length (passing c) <? length (o_signed o))%nat || (length (passing c) <? length (o_sends o))%nat
+      if (length (passing c) <? length (o_signed o))%nat || (length (passing c) <? length (o_sends o))%nat ||
+         negb (covered bytes_eqb (o_signed o) (may_sign c)) ||
+         negb (covered (fun x y => bytes_eqb (fst x) (fst y) && bytes_eqb (snd x) (snd y))
+                       (map fst (o_sends o)) (may_send c))
       then Some (String.append "effect-without-gate:" (first_failure c))
       else
         (* a handler that reported a refusal must not have written a commitment *)
